@@ -3,7 +3,7 @@
    whole CAT stream through noodles' decoder. *)
 From Coq Require Import List NArith ZArith Lia Bool PeanoNat.
 From Coq Require Import ZifyBool ZifyNat ZifyN.
-From NV Require Import Cram.Bytes Cram.Vlq Cram.IntProofs Cram.Rans4x8 Cram.Nx16Xform.
+From NV Require Import Cram.Bytes Cram.Vlq Cram.IntProofs Cram.Rans4x8 Cram.Rans4x8Proofs Cram.Nx16Xform.
 Import ListNotations.
 Ltac Zify.zify_post_hook ::= Z.div_mod_to_equations.
 Open Scope N_scope.
@@ -171,6 +171,54 @@ Proof.
   apply Nat.leb_gt in E4.
   replace (length syms <=? 16)%nat with true by (symmetry; apply Nat.leb_le; lia).
   rewrite unpack_pack_go; try lia; try assumption. reflexivity.
+Qed.
+
+(* ---------- build_alphabet marks every symbol of the input ---------- *)
+
+Lemma mark_fold : forall src t x, length t = 256%nat -> x < 256 ->
+  In x src \/ nth (N.to_nat x) t 0 = 1 ->
+  nth (N.to_nat x) (fold_left (fun t b => upd t (N.to_nat b) 1) src t) 0 = 1.
+Proof.
+  induction src as [|b r IH]; intros t x Hl Hx H; cbn [fold_left].
+  - destruct H as [[]|H]. exact H.
+  - apply IH; [rewrite upd_length; exact Hl|exact Hx|].
+    destruct (N.eq_dec b x) as [->|Hne].
+    + right. apply nth_upd_eq. lia.
+    + destruct H as [[H|H]|H]; [congruence|left; exact H|].
+      right. rewrite nth_upd_neq by lia. exact H.
+Qed.
+
+Lemma in_all_syms x : x < 256 -> In x all_syms.
+Proof.
+  intros Hx. unfold all_syms. apply in_map_iff. exists (N.to_nat x). split; [lia|].
+  apply in_seq. lia.
+Qed.
+
+Lemma present_complete src x : Forall (fun b => b < 256) src -> In x src -> In x (present src).
+Proof.
+  intros Hb Hin. rewrite Forall_forall in Hb. specialize (Hb x Hin).
+  unfold present. apply filter_In. split; [apply in_all_syms; exact Hb|].
+  rewrite mark_fold; [reflexivity|apply repeat_length|exact Hb|left; exact Hin].
+Qed.
+
+Lemma pack_build_spec src syms : pack_build src = Some syms ->
+  syms = present src /\ (1 <= length syms <= 16)%nat.
+Proof.
+  unfold pack_build. generalize (present src) as p. intros p. cbv zeta.
+  destruct (Nat.eqb (length p) 0) eqn:E0; [intros H; discriminate H|].
+  destruct (Nat.ltb 16 (length p)) eqn:E16; [intros H; discriminate H|].
+  cbn [orb]. intros H. inversion H; subst syms. split; [reflexivity|].
+  apply Nat.eqb_neq in E0. apply Nat.ltb_ge in E16. split; [|exact E16].
+  destruct (length p); [congruence|apply le_n_S, Nat.le_0_l].
+Qed.
+
+(* bit packing with the context build_context derives from the input itself *)
+Theorem pack_build_roundtrip src syms :
+  Forall (fun b => b < 256) src -> pack_build src = Some syms ->
+  pack_decode syms (pack_encode syms src) (length src) = DOk src.
+Proof.
+  intros Hb H. destruct (pack_build_spec src syms H) as [Hs Hn].
+  apply pack_roundtrip; [exact Hn|]. intros x Hx. rewrite Hs. apply present_complete; assumption.
 Qed.
 
 (* ---------- the whole CAT stream ---------- *)
